@@ -18,7 +18,7 @@ RULE = (
     "per-sample depth scale + seeded noise (sd 0 or up to 0.3), any sex mix, either naming style, male/female "
     "reference, sexes given or inferred (>= 40 X bins), file order shuffled; exact tier with corrections off, "
     "semantic tier with corrections on (flat profile, sex chromosomes <= 10% of bins, optional FASTA); (b) "
-    "negative cohorts with one file whose bin is moved, renamed or dropped; (c) flat references from generated "
+    "negative cohorts with one file whose bin is moved, renamed or dropped, or whose chromosomes are named in the other style; (c) flat references from generated "
     "BED files (+- antitarget BED, +- FASTA over ACGTNacgtn, +- male reference). Oracle: reference_model parses "
     "the written files itself, centres each sample (targets skip null bins), adds the flat expectation, applies "
     "the sex shift, stacks under the flat pseudo-sample and takes vk/models.py biweight location / midvariance "
@@ -74,7 +74,7 @@ def strategy(draw):
         "null_frac": draw(st.sampled_from([0.0, 0.0, 0.05, 0.3] if (given is not None and not semantic) else [0.0, 0.0, 0.05])),
         "female_y": draw(st.sampled_from(["null", "low"])),
         "shuffle": draw(st.booleans()), "fasta": semantic and draw(st.booleans()),
-        "corrupt": draw(st.sampled_from(["move", "rename", "drop"])) if kind == "negative" else None,
+        "corrupt": draw(st.sampled_from(["move", "rename", "drop", "restyle"])) if kind == "negative" else None,
     }
 
 
@@ -306,6 +306,9 @@ def check_case(case):
                     rows[k] = (c, s + 1, e, g, v, dd)
                 elif case["corrupt"] == "rename":
                     rows[k] = (c, s, e, g + "x", v, dd)
+                elif case["corrupt"] == "restyle":
+                    # the same coordinates and names under the other chromosome naming style (chr1 <-> 1): other bins
+                    rows = [((c_[3:] if c_.startswith("chr") else "chr" + c_), s_, e_, g_, v_, d_) for c_, s_, e_, g_, v_, d_ in rows]
                 else:
                     del rows[k]
             p = os.path.join(d, sid + ".targetcoverage.cnn")
